@@ -110,6 +110,7 @@ class Frame:
         self.parent = parent    # enclosing frame for closures
         self.loop_ordinal = 0
         self.self_value = None
+        self.ghost_values = {}
 
 
 class Ctx:
@@ -137,6 +138,7 @@ class Ctx:
         self.fold_instances = set()
         self.axiom_tags = set()
         self.dead = False
+        self.call_log = []
 
     # -- names -----------------------------------------------------------
     def fresh_name(self, base):
@@ -151,7 +153,7 @@ class Ctx:
     def assume(self, f):
         if isinstance(f, bool):
             f = z3.BoolVal(f)
-        f = z3.simplify(f)
+        f = simp(f)
         if z3.is_true(f):
             return
         if z3.is_false(f):
@@ -183,7 +185,7 @@ class Ctx:
         """fork on a z3 Bool; returns python bool taken on this path"""
         if isinstance(cond, bool):
             return cond
-        cond = z3.simplify(cond)
+        cond = simp(cond)
         if z3.is_true(cond):
             return True
         if z3.is_false(cond):
@@ -211,7 +213,7 @@ class Ctx:
             alts = [(g, a) for g, a in v.alts]
             live = []
             for g, a in alts:
-                g = z3.simplify(g)
+                g = simp(g)
                 if z3.is_false(g):
                     continue
                 if z3.is_true(g) or self.feasible(g):
@@ -231,7 +233,7 @@ class Ctx:
     def oblige(self, kind, clause, goal, info=None, observables=None):
         if isinstance(goal, bool):
             goal = z3.BoolVal(goal)
-        goal = z3.simplify(goal)
+        goal = simp(goal)
         if z3.is_true(goal):
             self.engine.count_trivial((kind, clause))
             return
@@ -252,7 +254,7 @@ class Ctx:
     def read_field(self, ref, field):
         ty = self.engine.field_type(field)
         t = z3.Select(self.field_array(field), ref)
-        t = z3.simplify(t)
+        t = simp(t)
         v = ty.wrap(t)
         inv = ty.invariant(t)
         if inv is not None:
@@ -283,7 +285,7 @@ class Ctx:
 
     def class_of(self, ref):
         """concrete class name of the object behind VRef (forks if needed)"""
-        t = z3.simplify(ref.t)
+        t = simp(ref.t)
         if z3.is_int_value(t) and t.as_long() in self.local_class:
             return self.local_class[t.as_long()]
         key = t.get_id()
